@@ -42,7 +42,7 @@ class Group:
                  named=None, canaries=1, functions=(), stubs=(), assumes=(), replay=None,
                  extra_cbmc=(), extra_instrument=(), nondet_static=False, runner=None,
                  also=(), text='', ndebug=False, mem_gb=12, object_bits=None,
-                 no_standard_checks=False, includes=(), annotate=None, partial_unwind=False):
+                 no_standard_checks=False, includes=(), annotate=None, partial_unwind=False, extract=None):
         self.id = id; self.prop = prop; self.harness = harness; self.entry = entry
         self.defines = list(defines); self.level = level; self.bound = bound
         self.backend = backend; self.unwind = unwind; self.unwindset = unwindset
@@ -56,6 +56,7 @@ class Group:
         self.no_standard_checks = no_standard_checks; self.includes = list(includes)
         self.annotate = annotate or {}
         self.partial_unwind = partial_unwind
+        self.extract = extract or {}
 
 
 class Result:
@@ -157,6 +158,21 @@ def run_cbmc_group(g, keep=False):
             os.makedirs(os.path.dirname(dst), exist_ok=True)
             open(dst, 'w').write(txt)
         inc.append('-I' + os.path.join(wd, 'annot'))
+    if g.extract:
+        import annotate as ann
+        for rel, fns in g.extract.items():
+            try:
+                src = open(os.path.join(REPO, rel)).read()
+                for fn in fns:
+                    dst = os.path.join(wd, 'annot', 'extract', fn + '.inc')
+                    os.makedirs(os.path.dirname(dst), exist_ok=True)
+                    open(dst, 'w').write('/* extracted verbatim from %s on this run */\n' % rel + ann.extract_function(src, fn))
+            except (ann.AnnotateError, OSError) as e:
+                res.status = 'error'; res.reason = 'extraction break (function extraction from %s): %s' % (rel, e)
+                res.seconds = time.time() - t0
+                return res
+        if '-I' + os.path.join(wd, 'annot') not in inc:
+            inc.append('-I' + os.path.join(wd, 'annot'))
     inc += ['-I' + os.path.join(VERIF, 'harness'), '-I' + os.path.join(VERIF, 'contracts'),
            '-I' + REPO, '-I' + os.path.join(REPO, 'include'), '-I' + os.path.join(REPO, 'src')]
     if any('random' in x for x in [g.harness] + g.defines + g.includes) or 'codegen' in g.includes:
